@@ -275,6 +275,28 @@ pub fn c12(ctx: &Ctx) -> PropResult {
         }
         Verdict { tags: vec![format!("class:{}", c.class), format!("mode:{}", c.mode), format!("debug:{}", c.debug), format!("check:{}", c.check)], sample: format!("{} | {}", case.aux, c.src), nontrivial: true, failure }
     });
+    // programs that import a user module standing in the working directory: the same source behaves alike as a file,
+    // with -e and on standard input (the CLI model carries no files: implementation-only oracle, file mode as reference)
+    let mut verdicts = verdicts;
+    {
+        let dir = scratch_dir("c12-modules");
+        std::fs::write(dir.join("mod12.ap"), "DISPLAY(\"module top\")\nEXPORT PROCEDURE twelve() {\n RETURN 12\n}\n").unwrap();
+        std::fs::write(dir.join("bad12.ap"), "x <- (1\n").unwrap();
+        for src in ["IMPORT MOD \"mod12.ap\"\nDISPLAY(twelve())\n", "IMPORT \"twelve\" FROM MOD \"./mod12.ap\"\nDISPLAY(twelve() + 1)\n", "DISPLAY(\"a\")\nIMPORT MOD \"bad12.ap\"\nDISPLAY(\"b\")\n", "DISPLAY(\"a\")\nIMPORT MOD \"none12.ap\"\nDISPLAY(\"b\")\n"] {
+            std::fs::write(dir.join("main.ap"), src).unwrap();
+            let file = run_binary(&["main.ap"], None, &dir);
+            let eval = run_binary(&["-e", src], None, &dir);
+            let stdin = run_binary(&["--eval-stdin"], Some(src.as_bytes()), &dir);
+            let mut failure = None;
+            for (how, r) in [("-e", &eval), ("--eval-stdin", &stdin)] {
+                if failure.is_none() && (r.stdout != file.stdout || (r.code == Some(0)) != (file.code == Some(0))) {
+                    failure = fail("impl-vs-oracle", Case::new(Kind::Run, src.to_string()).aux(format!("mode={how} (module files beside the program)")), format!("exit={:?} stdout={}", r.code, hex(&r.stdout)), format!("file mode: exit={:?} stdout={}", file.code, hex(&file.stdout)), format!("the same source behaves differently with {how} than as a file"));
+                }
+            }
+            verdicts.push(Verdict { tags: vec!["class:module".into()], sample: src.to_string(), nontrivial: true, failure });
+        }
+        let _ = std::fs::remove_dir_all(&dir);
+    }
     let stats = collect(verdicts);
     PropResult {
         stats,
@@ -327,7 +349,7 @@ pub fn c19(ctx: &Ctx) -> PropResult {
     }
     // `..` is resolved as the kernel does (through existing directories only); no path climbs above the work directory
     let paths = ["f1", "f2", "d", "d/f", "d/e", "d/e/g", "", ".", "d/", "./f1", "nope/x", "f1/x", "d/..", "d/../f1", "d/e/..", "d/e/../f", "nope/../f1", "f1/../f2", "d/../d/e", "d/e/../../f2", "./d/../f1", "f1/.", "d/.", "d/e/.", "nope/.", "d/./", "./.", "d/../.", "n1/n2/.", "d/e/./.."];
-    let contents = ["\"text\"", "\"héllo\\n\"", "12.5", "TRUE", "NULL", "[1, \"a\"]", "\"\""];
+    let contents = ["\"text\"", "\"héllo\\n\"", "12.5", "TRUE", "NULL", "[1, \"a\"]", "\"\"", "\"a\\r\\nb\"", "\"x\\r\"", "\"\\ny\"", "\"tab\\tend \"", "-0", "FALSE"];
     let ops = ["PATH_EXISTS", "PATH_IS_FILE", "PATH_IS_DIRECTORY", "FILE_REMOVE", "FILE_CREATE", "FILE_READ", "FILE_APPEND", "FILE_OVERWRITE", "DIRECTORY_READ", "DIRECTORY_CREATE", "DIRECTORY_CREATE_ALL", "DIRECTORY_REMOVE", "DIRECTORY_REMOVE_ALL"];
     let stmt = |op: &str, p: &str, c: &str| -> String {
         match op {
@@ -507,6 +529,12 @@ pub fn c13(ctx: &Ctx) -> PropResult {
         }
     }
     cases.push(Case::new(Kind::Run, "IMPORT MOD \"NO_SUCH_MODULE\"\nDISPLAY(1)\n".into()).tag("library:unknown-module").aux("import-error|".into()));
+    // a name without the .ap extension is a library module name and nothing else (files MATHS.ap, lib/util.ap, CORE.ap,
+    // math.ap, missing_file.ap exist in the working directory of this run)
+    for name in ["MATHS", "lib/util", "missing_file", "math", "CORE.", "MATH.AP", "lib/util.", "MATHS.txt"] {
+        cases.push(Case::new(Kind::Run, format!("IMPORT MOD \"{name}\"\nDISPLAY(1)\n")).tag("library:extensionless-name").aux("import-error|".into()));
+        cases.push(Case::new(Kind::Run, format!("IMPORT \"pub_one\" FROM MOD \"{name}\"\nDISPLAY(1)\n")).tag("library:extensionless-name").aux("import-error|".into()));
+    }
     cases.push(Case::new(Kind::Run, "IMPORT MOD \"missing_file.ap\"\nDISPLAY(1)\n".into()).tag("user:missing-file").aux("import-error|".into()));
     let stats1 = run_cases(&ctx.driver, cases, &|case: &Case, out: &Outcome| -> Result<bool, String> {
         let Some(r) = out.impl_run.as_ref() else { return Ok(false) };
@@ -547,7 +575,7 @@ pub fn c13(ctx: &Ctx) -> PropResult {
     // the process's working directory holds decoys with the names of modules that are missing next to their importer:
     // imports resolve relative to the importing file only
     let decoy_dir = scratch_dir("c13-cwd");
-    for name in ["missing_file.ap", "inner.ap", "lib/inner.ap", "a/b/inner.ap", "gone.ap"] {
+    for name in ["missing_file.ap", "inner.ap", "lib/inner.ap", "a/b/inner.ap", "gone.ap", "MATHS.ap", "lib/util.ap", "CORE.ap", "math.ap"] {
         let full = decoy_dir.join(name);
         let _ = std::fs::create_dir_all(full.parent().unwrap());
         let _ = std::fs::write(&full, "DISPLAY(\"decoy top-level\")\nEXPORT PROCEDURE inner_fn() {\n RETURN \"decoy\"\n}\nEXPORT PROCEDURE pub_one(x) {\n RETURN \"decoy\"\n}\n");
@@ -614,6 +642,14 @@ pub fn c13(ctx: &Ctx) -> PropResult {
             files.push((format!("{sub}inner.ap"), inner));
         }
         trees.push((main, files, format!("kind{kind}")));
+    }
+    // a module name without the .ap extension names a library module only, whatever files stand beside the importer
+    for (name, file) in [("MATHS", "MATHS.ap"), ("lib/util", "lib/util.ap"), ("helper", "helper.ap"), ("MATH", "MATH.ap"), ("m.ap.bak", "m.ap.bak.ap"), ("dir.ap/x", "dir.ap/x.ap")] {
+        let module = "DISPLAY(\"module top-level\")\nEXPORT PROCEDURE pub_one(x) {\n RETURN \"from file\"\n}\nEXPORT PROCEDURE SQRT(x) {\n RETURN \"from file\"\n}\n".to_string();
+        for imp in [format!("IMPORT MOD \"{name}\"\n"), format!("IMPORT \"SQRT\" FROM MOD \"{name}\"\n")] {
+            let main = format!("DISPLAY(\"main start\")\n{imp}DISPLAY(\"after import\")\nDISPLAY(SQRT(4))\n");
+            trees.push((main, vec![(file.to_string(), module.clone())], "extensionless".to_string()));
+        }
     }
     let verdicts = par_map(ctx, &trees, "c13", &|d, dir, (main, files, kind): &(String, Vec<(String, String)>, String)| {
         let work = dir.join("w");
@@ -712,9 +748,36 @@ pub fn c13(ctx: &Ctx) -> PropResult {
             let _ = std::fs::remove_dir_all(&root);
         }
     }
+    // module files that cannot be read as text: a diagnostic at the import, nothing of the module runs
+    let mut raw_verdicts = vec![];
+    {
+        let dir = scratch_dir("c13-raw");
+        let bodies: Vec<(&str, Vec<u8>)> = vec![
+            ("comment", b"// caf\xe9 latin-1\nDISPLAY(\"module ran\")\nEXPORT PROCEDURE f() {\n RETURN 1\n}\n".to_vec()),
+            ("string", b"DISPLAY(\"bad \xff byte\")\nEXPORT PROCEDURE f() {\n RETURN 1\n}\n".to_vec()),
+            ("truncated", b"DISPLAY(\"x\")\n// \xe2\x82".to_vec()),
+            ("bom16", b"\xff\xfeD\x00".to_vec()),
+        ];
+        for (tag, bytes) in &bodies {
+            std::fs::write(dir.join(format!("{tag}.ap")), bytes).unwrap();
+            let main = format!("DISPLAY(\"before\")\nIMPORT MOD \"{tag}.ap\"\nDISPLAY(\"after\")\n");
+            let main_path = dir.join("main.ap");
+            let r = imp::run_impl(&main, &main_path.to_string_lossy(), 20000, 32);
+            let case = Case::new(Kind::Run, main.clone()).aux(format!("module file with invalid UTF-8 ({tag})"));
+            let impl_rec = format!("{} {}", r.status_str(), hex(r.output.as_bytes()));
+            let failure = match &r.end {
+                End::Rt(..) if r.output == "before\n" => None,
+                End::Panic(m) => fail("impl-vs-oracle", case, impl_rec, String::new(), format!("implementation panicked: {m}")),
+                _ => fail("impl-vs-oracle", case, impl_rec, String::new(), "a module file that is not valid UTF-8 was not reported at the import (or part of it ran)".into()),
+            };
+            raw_verdicts.push(Verdict { tags: vec!["user-module:invalid-utf8".into()], sample: main, nontrivial: true, failure });
+        }
+        let _ = std::fs::remove_dir_all(&dir);
+    }
     let mut stats = stats1;
     stats.merge(collect(verdicts));
     stats.merge(collect(inv_verdicts));
+    stats.merge(collect(raw_verdicts));
     PropResult {
         stats,
         rule: "library imports: for every module of the live registry the forms IMPORT MOD, IMPORT \"f\" FROM MOD (several names), IMPORT [f, g] FROM MOD, an unknown name, an unknown module; after each, every procedure name of the whole registry is probed without running it (a call with one argument too many: the label is the argument list iff the name is defined, the name iff it is not) and the importer's variable is displayed; user modules: generated files in the importer's directory or sub-directories with top-level output, a module variable, two exported procedures (one calling the other), a private procedure, optionally a runtime / syntax / lexical error or a nested import relative to the module's own directory; imported whole, by one name, by a list, by a private name, twice; probes for exported / private / module-variable / nested names and the importer's variables; in-process with the model given the same file tree".into(),
@@ -994,6 +1057,10 @@ pub fn c18(ctx: &Ctx) -> PropResult {
         if i % 7 == 0 {
             programs.push(("operand-order".into(), src));
         }
+    }
+    // ROBOT_MAP on every class of grid text (malformed ones give NULL silently)
+    for grid in ["n0", ".n.\\n0", "0", "n1x", "nn", "n?", "", "\\n", "x", "n9", "e21x", "N W", "#n#", "n\\r\\n.", "é", "n0x0"] {
+        programs.push(("ROBOT.grids".into(), format!("{all_imports}DISPLAY(\"A\")\nr <- ROBOT_MAP(\"{grid}\")\nDISPLAY(r == NULL)\nDISPLAY(\"B\")\n")));
     }
     // a user procedure with the name of a library procedure (in scope or imported later), declared twice
     for name in ["LENGTH", "DISPLAY", "APPEND", "SIN", "TO_UPPER", "MAP", "mine"] {
